@@ -100,6 +100,16 @@ func newRecv(prec uint32, mode uint8) *decimal.Decimal {
 	return z
 }
 
+// failingLiterals are rejected only after their (long) mantissa was scanned.
+var failingLiterals = []string{
+	"123456789012345678901234567890e+",
+	"98765432109876543210987654321098765432109876543210.5e",
+	"1234567890123456789012345678901234567890_",
+	"0.00000000000000000000000012345678901234567890123456789e99999999999999999999",
+	"0x123456789abcdef0123456789abcdef0123456789p",
+	"777777777777777777777777777777777777777777777777777777777777 ",
+}
+
 // ladenRecv returns a receiver with the same precision and mode as newRecv
 // gives, but with a history: it held a long negative value with spare capacity
 // and its last operation was inexact.
@@ -125,6 +135,17 @@ func parseVia(entry, text string, base int, prec uint32, mode uint8, chunk int, 
 	if strings.HasSuffix(entry, "+laden") {
 		entry = strings.TrimSuffix(entry, "+laden")
 		z = ladenRecv(prec, mode)
+	}
+	if strings.HasSuffix(entry, "+failed") {
+		// a receiver whose previous call was a parse that failed late, after many
+		// digits had been consumed: whatever that call left behind (partial
+		// mantissa, scratch buffers, form) must not influence this one
+		entry = strings.TrimSuffix(entry, "+failed")
+		bad := failingLiterals[len(text)%len(failingLiterals)]
+		if d, _, err := z.Parse(bad, 0); err == nil || d != nil {
+			out.panicMsg = fmt.Sprintf("set-up: Parse(%q, 0) did not fail", bad)
+			return
+		}
 	}
 	defer func() {
 		if r := recover(); r != nil {
@@ -633,7 +654,7 @@ func runParse(sc *Scenario) *Outcome {
 		}
 	}
 	ref := parseVia("Parse", text, base, prec, mode, 0, nil, nil)
-	if !single || bs.Entry == "Parse+laden" {
+	if !single || bs.Entry == "Parse+laden" || bs.Entry == "Parse+failed" {
 		// the outcome must not depend on what the receiver held before (value,
 		// sign, accuracy, buffer): same call into a history-laden receiver
 		lad := one("Parse+laden", text, base, 0, nil)
@@ -645,6 +666,17 @@ func runParse(sc *Scenario) *Outcome {
 				&BytesSpec{Entry: "Parse+laden", Text: text, Base: base, RecvPrec: prec, RecvMode: mode})
 		}
 		cnt["laden_receiver_agreements"]++
+		if ref.ok {
+			fl := one("Parse+failed", text, base, 0, nil)
+			if fl.panicMsg != "" {
+				return viol("parse-panic", fmt.Sprintf("Parse(%q, %d) into a receiver whose previous Parse failed: %s", text, base, fl.panicMsg), &BytesSpec{Entry: "Parse+failed", Text: text, Base: base, RecvPrec: prec, RecvMode: mode})
+			}
+			if !fl.ok || fl.key() != ref.key() {
+				return viol("depends-on-receiver-history", fmt.Sprintf("Parse(%q, %d) into a fresh receiver  = %s\n  into a receiver whose previous Parse failed after a long mantissa = %s", text, base, ref.key(), fl.key()),
+					&BytesSpec{Entry: "Parse+failed", Text: text, Base: base, RecvPrec: prec, RecvMode: mode})
+			}
+			cnt["after_failed_parse_agreements"]++
+		}
 	}
 	ref0 := ref
 	if base != 0 {
